@@ -8,7 +8,7 @@
 //	       | PSNP:<len>:<srcid>:[tlvs]
 //	       | L2H:<ct>:<sysid>:<hold>:<len>:<prio>:<dis>:[tlvs]
 //	tlvs   : tlv;tlv;...            tlv: <K>,<type>,<len>,<field>,...
-//	 A areas a|a|a   K csum   D name   S ids   I addr|addr   J state,extcid,nsys,nextcid   N snpa
+//	 A areas a|a|a ("-" = none)   K csum   D name   S ids   I addr|addr   J state,extcid,nsys,nextcid   N snpa
 //	 E entry|entry (life.lspid.seq.csum)   U value   G padding
 //	 X nbr|nbr (srcid.metric.sublen.sub+sub)   Y reach|reach (metric.udpfx.addr.sub+sub)   T addr
 //	 sub: l~type~len~local~remote | a~type~len~addr | u~type~len~value
@@ -81,7 +81,10 @@ func renderTLV(t packet.TLV) string {
 		for _, a := range v.AreaIDs {
 			xs = append(xs, hexs(a))
 		}
-		return fmt.Sprintf("A,%d,%d,%s", v.TLVType, v.TLVLength, join(xs, "|"))
+		if len(xs) == 0 {
+			return fmt.Sprintf("A,%d,%d,-", v.TLVType, v.TLVLength)
+		}
+		return fmt.Sprintf("A,%d,%d,%s", v.TLVType, v.TLVLength, strings.Join(xs, "|"))
 	case *packet.ChecksumTLV:
 		return fmt.Sprintf("K,%d,%d,%d", v.TLVType, v.TLVLength, v.Checksum)
 	case *packet.DynamicHostNameTLV:
@@ -240,6 +243,18 @@ func parseEntries(s string) []*packet.LSPEntry {
 	return es
 }
 
+// parseAreas: "-" is no area, "_" is one empty area
+func parseAreas(s string) []types.AreaID {
+	as := []types.AreaID{}
+	if s == "-" {
+		return as
+	}
+	for _, a := range strings.Split(s, "|") {
+		as = append(as, types.AreaID(unhex(a)))
+	}
+	return as
+}
+
 func parseSubs(s string) []packet.TLV {
 	ts := []packet.TLV{}
 	for _, x := range split(s, "+") {
@@ -275,9 +290,7 @@ func parseTLV(s string) packet.TLV {
 	case "A":
 		need(f, 4, "A")
 		t := &packet.AreaAddressesTLV{TLVType: ty, TLVLength: ln, AreaIDs: []types.AreaID{}}
-		for _, a := range split(f[3], "|") {
-			t.AreaIDs = append(t.AreaIDs, types.AreaID(unhex(a)))
-		}
+		t.AreaIDs = parseAreas(f[3])
 		return t
 	case "K":
 		need(f, 4, "K")
